@@ -85,6 +85,16 @@ def _collect_fields(fm, field_s):
         if f not in field_s:
             _collect_fields(f, field_s)
 
+def _collect_composite_used_rand(fm, out_l, visited_s):
+    """Records which objects and lists at or below a field are currently marked random"""
+    if id(fm) in visited_s:
+        return
+    visited_s.add(id(fm))
+    if hasattr(fm, "field_l"):
+        out_l.append((fm, fm.is_used_rand))
+        for f in fm.field_l:
+            _collect_composite_used_rand(f, out_l, visited_s)
+
 def _collect_randsz_len(fm, len_m, visited_s):
     """Records the current length of the random-size lists at or below a field"""
     if id(fm) in visited_s:
@@ -622,6 +632,13 @@ class Randomizer(RandIF):
         
         clear_soft_priority = ClearSoftPriorityVisitor()
         
+        # This call may itself be made from a pre/post_randomize callback 
+        # of an enclosing call, on an object that is not random there. What 
+        # the enclosing call marked as random is put back when this one ends
+        used_rand_l = []
+        for f in field_model_l:
+            _collect_composite_used_rand(f, used_rand_l, set())
+        
         for f in field_model_l:
             f.set_used_rand(True, 0)
             clear_soft_priority.clear(f)
@@ -729,6 +746,9 @@ class Randomizer(RandIF):
                     # a stand-alone field would be solved (and overwritten) 
                     # by the next call whose constraints merely read it
                     fm.set_used_rand(False, 0)
+            if not ok:
+                for m, v in used_rand_l:
+                    m.is_used_rand = v
             for c in constraint_l:
                 # Inline constraints reach dynamic-constraint blocks, whose
                 # foreach expansions must not outlive the call either
@@ -737,6 +757,9 @@ class Randomizer(RandIF):
         visited = [] 
         for fm in field_model_l:
             fm.post_randomize(visited)
+            
+        for m, v in used_rand_l:
+            m.is_used_rand = v
         
         
         # Process constraints to identify variable/constraint sets
